@@ -203,9 +203,12 @@ def oracleState (nq ret : Nat) (x : BState) (r : Bool) : BState :=
   ((x ++ List.replicate (nq - x.length) false).set ret r)
 
 /-- `og` is a clean xor-oracle of the predicate `f` on `n` search bits: classical gates inside
-`nq` qubits, `_ret ^= f x`, search register and scratch qubits restored -/
+`nq` qubits, each on distinct wires (what `QCircuit.append` admits: it raises on a duplicate
+qubit – without this a "gate" like `CX [3, 3]` is not a permutation of basis states and
+`applyWave` would not be its action), `_ret ^= f x`, search register and scratch qubits restored -/
 def CleanXorOracle (n nq ret : Nat) (og : List AGate) (f : BState → Bool) : Prop :=
   n ≤ ret ∧ ret < nq ∧ allClassical og = true ∧ (∀ g ∈ og, ∀ w ∈ g.wires, w < nq) ∧
+  (∀ g ∈ og, g.wires.Nodup) ∧
   ∀ x : BState, x.length = n → ∀ r : Bool,
     runClassical og (oracleState nq ret x r) = oracleState nq ret x (xor r (f x))
 
